@@ -93,7 +93,7 @@ pub fn spec(id: &str) -> Option<Spec> {
                 b("owning", scen::c19::owning_honest, 3000, 60_000),
                 heavy("wrap", scen::queue::wrap_history, 48, 512),
             ],
-            extras: vec![],
+            extras: vec![Extra { name: "should_notify_sweep", f: scen::queue::notify_sweep }],
             assumptions: vec!["liveness bound: 4 idle device opportunities", "interrupts are not delivered asynchronously (library installs no handlers)"],
             real: REAL_QUEUE.to_vec(),
             stubbed: STUB_COMMON.to_vec(),
@@ -276,6 +276,7 @@ pub fn spec(id: &str) -> Option<Spec> {
                 b("blk_scribbled", scen::c07::blk_scribbled, 2000, 50_000),
                 b("console_scribbled", scen::c07::console_scribbled, 2000, 50_000),
                 b("net_scribbled", scen::c07::net_scribbled, 2000, 50_000),
+                b("net_short_len", scen::c16::buf_run_short_len, 3000, 60_000),
                 b("owning_scribbled", scen::c07::owning_scribbled, 2000, 50_000),
                 b("vsock_scribbled", scen::c07::vsock_scribbled, 2000, 50_000),
             ],
